@@ -278,7 +278,12 @@ fn c16_ksel(s: &mut Src) -> c16::KSel {
 fn c16_net(s: &mut Src) -> crate::keys::Net {
     use crate::keys::Net;
     match s.u8() % 16 {
-        0..=7 => Net::Hot(s.u8() % 3),
+        0..=5 => Net::Hot(s.u8() % 3),
+        6 => Net::HotNoUdp(s.u8() % 3),
+        7 => {
+            let _ = s.u8();
+            Net::Loopback4
+        }
         8..=10 => Net::Filler(s.u8() % 8),
         11 => Net::V6Only,
         12 => Net::NoAddr,
